@@ -25,8 +25,10 @@ CLAIMED = {
              ref="DESIGN.md 4 (C04)", note=TRUST, tech=TECH),
  "C16": dict(text="Single-task simulated runs: seeded histories (push/emplace/pop at both ends, indexing, clear, copy/move construction and assignment, allocate/deallocate, copy_to/move_to, destruction; capacities 0..9; int and heap-owning ledgered elements; SimpleVector in its three modes with construct/move/swap/resize/destroy/fill) executed against the real containers inside the simulator's allocator environment (seeded block recycling, poisoning with quarantine, canaries) and element-lifetime ledger; oracles: std::deque / std::vector model after every step, alive <=> stored, allocate/deallocate ledger (size and type match, nothing live at the end, released blocks untouched), ASan. There is no schedule in this property: the simulator-owned dimension is the allocator/lifetime environment. Sampling, not proof.",
              ref="DESIGN.md 4 (C16), 1 (single-task claims)", note="Trusted: the simulated allocator behaves like a conforming allocator (recycling, no zeroing); the reference model is std::deque/std::vector; ASan on the same histories. -DNDEBUG like the shipped library.", tech=TECH_SEQ),
+ "C17": dict(text="Single-task simulated runs: seeded histories over keys 0..7 (LRU set/map: put, touch, touch_if_exists, get, get_touch, erase, erase_if_exists, exists, pop, clear, absent keys on purpose, final drain; splay set/multiset with int and heap-owning keys: insert, erase, erase(node), exists, find, clear-then-continue, traversal, operations on the empty tree) executed against the real containers inside the simulator's allocator environment (seeded recycling, poisoning with quarantine, canaries) and key-lifetime ledger; oracles: recency-list model incl. std::range_error exactly for absent keys and exact pop order, std::set/std::multiset model (returns, size, in-order sequence, find neighbours), check() for the set variant, live nodes == stored keys after every step, allocator ledger clean at the end, ASan. No schedule in this property: the simulator-owned dimension is the allocator/lifetime environment. Sampling, not proof.",
+             ref="DESIGN.md 4 (C17), 1 (single-task claims)", note="Trusted: the simulated allocator behaves like a conforming allocator; reference models are a std::list recency list and std::set/std::multiset; ASan on the same histories. -DNDEBUG like the shipped library.", tech=TECH_SEQ),
 }
-PENDING = ["C02", "C17"]
+PENDING = ["C02"]
 NA = {
  "C01":"pure function of a single-threaded call history: no schedule, clock, fault or environment seam in the statement (model-based testing, not simulation) - DESIGN.md 5",
  "C03":"sequential string sorts are pure functions of (strings, memory limit); nothing for a scheduler or fault injector to own - DESIGN.md 5",
